@@ -1025,8 +1025,62 @@ func freeThenHint(r *ev.Run, id string) {
 	}
 }
 
+// specialRanges: what a pool's addresses "mean" (loopback, multicast, link-local, reserved,
+// documentation ...) is not the allocator's business: a 4-address range across every /8
+// boundary of IPv4, and a 4-block pool at the start of every /8 of IPv6, hold exactly 4.
+func specialRanges(r *ev.Run, id string) {
+	var pools []Pool
+	for o := 0; o < 255; o++ {
+		pools = append(pools, Pool{V4: true, Start: fmt.Sprintf("%d.255.255.254", o), End: fmt.Sprintf("%d.0.0.1", o+1)})
+	}
+	pools = append(pools, Pool{V4: true, Start: "127.0.0.1", End: "127.0.0.3"}, Pool{V4: true, Start: "169.254.0.1", End: "169.254.0.4"}, Pool{V4: true, Start: "239.1.1.1", End: "239.1.1.2"}, Pool{V4: true, Start: "0.0.0.0", End: "0.0.0.3"})
+	for o := 0; o < 256; o++ {
+		pools = append(pools, Pool{CIDR: fmt.Sprintf("%02x00::/62", o), Page: 64})
+	}
+	pools = append(pools, Pool{CIDR: "fe80::/62", Page: 64}, Pool{CIDR: "::ffff:0:0/96", Page: 98}, Pool{CIDR: "2002::/46", Page: 48}, Pool{CIDR: "ff02::/14", Page: 16})
+	for _, p := range pools {
+		g := newGeom(p)
+		fam := "ipv6"
+		if p.V4 {
+			fam = "ipv4"
+		}
+		a := newAlloc(p)
+		seen := map[string]bool{}
+		viol := func(prop, sig, what string) {
+			if prop == id {
+				r.Violate(prop+"/"+fam+"/"+sig, fmt.Sprintf("pool %v (%d blocks): %s", p, g.n, what), map[string]interface{}{"pool": p, "scenario": "fill without hint, then one hinted allocation per block on a fresh allocator"})
+			}
+		}
+		for i := int64(0); i < g.n; i++ {
+			n, err := a.Allocate(net.IPNet{})
+			if err != nil {
+				viol("C05", "alloc-fails-with-free-blocks/special-range", fmt.Sprintf("allocation %d of %d failed: %v", i+1, g.n, err))
+				break
+			}
+			if seen[n.String()] {
+				viol("C04", "double-allocation/special-range", fmt.Sprintf("allocation %d returned %v again", i+1, n))
+			}
+			seen[n.String()] = true
+		}
+		b := newAlloc(p)
+		for i := int64(0); i < g.n; i++ {
+			h := net.IPNet{IP: g.ipBytes(g.blockBase(i)), Mask: net.CIDRMask(g.page, g.width)}
+			n, err := b.Allocate(h)
+			if err != nil || !n.IP.Equal(h.IP) {
+				viol("C07", "hint-not-honoured/special-range", fmt.Sprintf("hint naming free block %d (%v) returned %v, %v", i, h.IP, n, err))
+				if err != nil {
+					viol("C05", "alloc-fails-with-free-blocks/special-range", fmt.Sprintf("hinted allocation of free block %d (%v) failed: %v", i, h.IP, err))
+				}
+				break
+			}
+		}
+		r.Eval("special-range/" + fam)
+	}
+}
+
 // sweeps: linear fills of many pool geometries (C05), hint family at word boundaries (C07).
 func sweeps(r *ev.Run, id string) {
+	specialRanges(r, id)
 	freeThenHint(r, id)
 	freeNeverAllocated(r, id)
 	hugeHintedFill(r, id)
